@@ -5,10 +5,10 @@ From RX Require Import Base.Prelude Base.InvList Tables.Consts Model.Case Model.
 
 Section L.
 Variable p : list N.          (* the literal pattern *)
-Variable ci multi : bool.
+Variable ci multi lit : bool.
 Variable input : list N.
 Let n := length input.
-Let prog := mk_program p (OSeq [OAtom p; OEnd]) 1 ci multi true false.
+Let prog := mk_program p (OSeq [OAtom p; OEnd]) 1 ci multi lit false.
 (* the pattern is an object that exists: its length is a usize *)
 Hypothesis Hfit : (N.of_nat (length p) <= umax)%N.
 
